@@ -322,11 +322,65 @@ def redefinition(rep):
     finally:
         mod.clear_caches = saved; table.clear(); table.update(snapshot)
 
+def cacheable_flag(rep):
+    """HintTreeCode.sanify_hint_child: the tree is cacheable only if EVERY sanified child is (the flag can only go down)"""
+    from pyvc import funcmode, model as M, discharge
+    from pyvc.symx import Exec, St, VObj, VPy
+    import beartype._check.cls.hint.tree.hinttreecode as mod
+    fobj, node, _ = funcmode.load('beartype/_check/cls/hint/tree/hinttreecode.py', 'HintTreeCode.sanify_hint_child')
+    uni = M.Universe()
+    SELF = z3.Const('self', M.Obj); CHILD = z3.Const('hint_child_insane', M.Obj); SANE = z3.Const('hint_child_sane', M.Obj)
+    def m_san(ex, s, f, a, kw, w): return [(s.ev('sanify', dict(kw)), VObj(SANE))]
+    ex = Exec(uni, dict(mod.__dict__), call_model={mod.sanify_hint_child: m_san}, name='sanify_hint_child'); ex.fields_mode = True
+    F = lambda n: z3.Const(f'H_{n}', z3.ArraySort(M.Obj, M.Obj))
+    old_flag = M.truthy(z3.Select(F('is_check_expr_cacheable'), SELF)); child_flag = M.truthy(z3.Select(F('is_check_expr_cacheable'), SANE))
+    outs = ex.run_function(node, St(), (VObj(SELF), VObj(CHILD)), {}, fobj)
+    pr = discharge.Prover(uni.axioms() + [z3.ForAll([z3.Const('b_', z3.BoolSort())], M.truthy(M.box_bool(z3.Const('b_', z3.BoolSort()))) == z3.Const('b_', z3.BoolSort()))])
+    for i, (s, v) in enumerate(outs):
+        new_flag = M.truthy(z3.Select(ex.field(s, 'is_check_expr_cacheable'), SELF))
+        r = pr.prove(list(s.pc), new_flag == z3.And(old_flag, child_flag))
+        rep.add(f'C14.sanify_hint_child.post.cacheable_is_conjunction.path{i}', r.status, time=r.time, backend=r.backend,
+                where='after sanifying a child the tree is cacheable iff it was cacheable before AND this child is: a scope-relative (uncacheable) child is never forgotten, whatever is sanified after it')
+        rep.add(f'C14.sanify_hint_child.post.returns_callee_result.path{i}', 'proved' if (isinstance(v, VObj) and v.t.eq(SANE)) else 'refuted', backend='structural')
+
+def forward_refs(rep):
+    """bounded scenario (run-time contract): an unresolved forward reference is not remembered as failing"""
+    import subprocess
+    from pyvc import REPO
+    src = f'''
+import sys; sys.path.insert(0, {REPO!r})
+from beartype import beartype
+from beartype.door import is_bearable
+from beartype.roar import BeartypeCallHintForwardRefException, BeartypeException
+@beartype
+def f(x: "Later") -> "list[Later]": return [x]
+bad = []
+for attempt in range(2):
+    try: f(1); bad.append("call succeeded before Later was defined")
+    except BeartypeCallHintForwardRefException: pass
+    except BeartypeException as e: bad.append(f"unexpected {{type(e).__name__}}")
+class Later: pass
+try:
+    r = f(Later())
+    if not isinstance(r[0], Later): bad.append("wrong result")
+except Exception as e: bad.append(f"after defining Later: {{type(e).__name__}}: {{e}}"[:200])
+try:
+    f(1); bad.append("f(1) accepted although 1 is not a Later")
+except BeartypeException: pass
+print(bad); sys.exit(1 if bad else 0)
+'''
+    p = subprocess.run([sys.executable, '-c', src], capture_output=True, text=True, timeout=120)
+    ok = p.returncode == 0
+    rep.bounded.append(dict(kind='forward-reference scenario: fails twice while undefined, works without re-decoration once defined (bounded run-time contract)', cases=1, failing=0 if ok else 1))
+    if not ok:
+        rep.add('C14.forward_ref.not_remembered_as_failing', 'refuted', backend='runtime-contract', where=(p.stdout + p.stderr)[-300:], solver_output='bounded run-time contract (not a proof)',
+                replay=dict(reproduced=True, detail=p.stdout.strip()[-200:]), replay_script=src)
+
 def main(tier, seed):
     rep = report.Report('C14', tier, seed, 'proof', f'./check C14 --tier {tier}')
     for fn, args in ((memoiser, ('callable_cached', 'beartype/_util/cache/utilcachecall.py', 'callable_cached', '_callable_cached', False)),
                      (memoiser, ('method_cached_arg_by_id', 'beartype/_util/cache/utilcachecall.py', 'method_cached_arg_by_id', '_method_cached', True)),
-                     (cache_unbounded, ()), (structural, ()), (redefinition, ())):
+                     (cache_unbounded, ()), (structural, ()), (redefinition, ()), (cacheable_flag, ()), (forward_refs, ())):
         try: fn(rep, *args)
         except Exception: rep.error(f'C14 {fn.__name__}{args[:1]}: ' + traceback.format_exc()[-1800:])
     files = ['beartype/_util/cache/utilcachecall.py', 'beartype/_util/cache/map/utilmapunbounded.py', 'beartype/_util/cache/utilcacheclear.py', 'beartype/_decor/_type/decortype.py']
